@@ -531,6 +531,136 @@ class Ctx:
                         witness=None if ok else {"path": body.describe_path(bad), "unit": body.defq},
                         site_key=f"{body.defq}")
 
+    # ---- totality ------------------------------------------------------------------------
+    PANIC_CALLS = ("core::option::Option::unwrap", "core::option::Option::expect", "core::result::Result::unwrap",
+                   "core::result::Result::expect", "core::result::Result::unwrap_err", "core::result::Result::expect_err",
+                   "core::ops::index::Index::index", "core::ops::index::IndexMut::index_mut")
+
+    def _const_of(self, body, op, _d=0):
+        """constant value of an operand through casts / copies, or None"""
+        if op.get("k") == "const":
+            return op.get("v")
+        if _d > 6:
+            return None
+        l = op_local(op)
+        if l is None or op.get("p"):
+            return None
+        ds = body.defs.get(l, [])
+        if len(ds) != 1 or ds[0][0] != "assign" or ds[0][3].get("p"):
+            return None
+        rv = ds[0][4]
+        if rv["k"] in ("use", "cast"):
+            return self._const_of(body, rv["op"], _d + 1)
+        return None
+
+    def _root_of(self, body, op, _d=0):
+        """the variable an operand is a (cast / copy) image of: ('local', l) — follows single
+        definitions through `use` / integer widening casts"""
+        l = op_local(op)
+        if l is None or op.get("p") or _d > 8:
+            return None
+        if 1 <= l <= body.argc or body.local_name(l):
+            return l
+        ds = body.defs.get(l, [])
+        if len(ds) == 1 and ds[0][0] == "assign" and not ds[0][3].get("p") and ds[0][4]["k"] in ("use", "cast"):
+            r = self._root_of(body, ds[0][4]["op"], _d + 1)
+            return r if r is not None else l
+        return l
+
+    def panic_edges(self, body):
+        """all panic edges of a body (DESIGN §5 NOPANIC): Assert terminators and calls that can
+        panic; debug_assert! expansions are exempt (debug-only)"""
+        out = []
+        for i in sorted(body.live):
+            t = body.blocks[i]["t"]
+            if t["k"] == "assert":
+                out.append(("assert", i, t))
+            elif t["k"] in ("call", "tailcall"):
+                f = t["f"]
+                path = f["fn"]["path"] if f.get("k") == "fn" else ""
+                exp = t.get("exp") or ""
+                if "debug_assert" in exp:
+                    continue
+                if path in self.PANIC_CALLS or path.startswith("core::panicking::") or path.startswith("std::rt::begin_panic") or \
+                        path in ("core::slice::index::slice_index_fail", "core::str::slice_error_fail"):
+                    out.append(("call", i, t))
+        return out
+
+    def bounds_discharged(self, body, bb, term):
+        """is the bounds Assert at bb (`index < len` with constant len) implied by dominating
+        comparisons of the index's root variable against constants?"""
+        msg = term["msg"]
+        n = self._const_of(body, msg["len"])
+        if n is None:
+            return False, "length is not a constant"
+        root = self._root_of(body, msg["index"])
+        if root is None:
+            return False, "index has no root variable"
+        orig = Origins(body, 0)
+        implying = []
+        for i in sorted(body.live):
+            t = body.blocks[i]["t"]
+            if t["k"] != "switch" or t.get("dt") != "bool":
+                continue
+            for test in decode_bool_test(body, orig, t["d"]):
+                if test[0] != "cmp":
+                    continue
+                _, rel, a, b, flip = test
+                ra, rb = self._root_of(body, a), self._root_of(body, b)
+                ca, cb = self._const_of(body, a), self._const_of(body, b)
+                sw = Switch(body, i)
+                # normalise to `root REL c`
+                if ra == root and cb is not None:
+                    r, c = rel, cb
+                elif rb == root and ca is not None:
+                    r, c = REL_SWAP[rel], ca
+                else:
+                    continue
+                # which truth value of (root r c) implies root < n ?
+                for truth in (True, False):
+                    rr = r if truth else REL_NEG[r]
+                    implies = (rr == "Lt" and c <= n) or (rr == "Le" and c <= n - 1) or (rr == "Eq" and c <= n - 1)
+                    if implies:
+                        want = truth != flip
+                        for lab in sw.edges_for_truth(want):
+                            implying.append((i, lab))
+        if not implying:
+            return False, "no dominating comparison of the index against a constant"
+        # the index root must not be reassigned between the test and the use: require single definition
+        if len(body.defs.get(root, [])) > 1:
+            return False, "index variable is reassigned"
+        p = body.path([0], [bb], cut_edges=set(implying))
+        return p is None, ("dominated by the comparison edges" if p is None else f"reachable without the bound: {body.describe_path(p)}")
+
+    def no_panic(self, oid, body, allowed=(), detail=""):
+        """NOPANIC: every panic edge of body is discharged (constant-length bounds checks by
+        interval reasoning) or listed in `allowed` (substring of callee path / assert kind, with
+        the reason kept in the rule file)."""
+        edges = self.panic_edges(body)
+        ok_all = True
+        n = 0
+        for kind, bb, t in edges:
+            n += 1
+            line = t.get("line")
+            if kind == "assert":
+                k = t["msg"].get("k")
+                if k == "bounds":
+                    ok, why = self.bounds_discharged(body, bb, t)
+                    self.add(f"{oid}-bounds-{n}", "NOPANIC", ok, f"index bounds check in {body.defq} line {line}: {why}",
+                             sites=[f"{body.file}:{line}"], site_key=f"{body.defq}:bounds:{n}")
+                    ok_all &= ok
+                    continue
+                name = f"assert:{k}"
+            else:
+                name = t["f"]["fn"]["path"]
+            okk = any(a in name for a in allowed)
+            self.add(f"{oid}-{n}", "NOPANIC", okk, f"panic edge `{name}` in {body.defq} line {line}" + (" (reviewed exception)" if okk else ""),
+                     sites=[f"{body.file}:{line}"], site_key=f"{body.defq}:{name}:{n}")
+            ok_all &= okk
+        if not edges:
+            self.add(f"{oid}-none", "NOPANIC", True, f"{body.defq} has no panic edge", sites=[f"{body.file}:{body.line}"], site_key=body.defq)
+        return ok_all
+
     # ---- who-may-call / who-may-write --------------------------------------------------
     def call_sites(self, callee, crates, self_ty=None, targ=None, include_refs=True):
         """all live call sites (and fn-item references) of callee in the given crates"""
